@@ -39,7 +39,11 @@ Inductive case :=
 (* config Init + default factory, every backend behind the real HTTP proxy with a stub
    executor: hs = per backend the status mode of its configuration and the HTTP reply *)
 | CSeqH (ts : list tmpl) (pats : list string) (hs : list (hmode * hreply)) (ps0 : params)
-        (evs : list event) (res : result).
+        (evs : list event) (res : result)
+(* merge middleware behind the request builder with sequential_propagated_params = props;
+   pars: the request.Params each entered backend saw *)
+| CSeqP (ts : list tmpl) (pats : list string) (props : list (nat * list string)) (outs : list outcome)
+        (ps0 : params) (evs : list event) (pars : list (nat * params)) (res : result).
 
 Definition check_seq (ts : list tmpl) (pats : list string) (outs : list outcome) (ps0 : params)
            (evs : list event) (res : result) : bool * bool :=
@@ -51,8 +55,23 @@ Definition check_seq (ts : list tmpl) (pats : list string) (outs : list outcome)
    rerr_eqb (snd mres) (snd res),
    spec_b ts outs ps0 (evs, res)).
 
+(* parameter tables compared as maps *)
+Definition params_eqb (a b : params) : bool :=
+  forallb (fun kv => opt_eqb str_eqb (lookup (fst kv) a) (lookup (fst kv) b)) (a ++ b).
+
+Definition pars_eqb (a b : list (nat * params)) : bool :=
+  list_eqb (fun x y => Nat.eqb (fst x) (fst y) && params_eqb (snd x) (snd y)) a b.
+
 Definition check_case (c : case) : bool * bool :=
   match c with
+  | CSeqP ts pats props outs ps0 evs pars res =>
+      let '(mevs, mpars, mres) := seq_run_x ts props outs ps0 in
+      (Nat.eqb (List.length ts) (List.length outs) &&
+       list_eqb str_eqb (map render ts) pats &&
+       list_eqb event_eqb mevs evs && pars_eqb mpars pars &&
+       resp_corr (payload_datas (called outs)) (fst mres) (fst res) &&
+       rerr_eqb (snd mres) (snd res),
+       spec_b ts outs ps0 (evs, res))
   | CSeq _ ts pats outs ps0 evs res => check_seq ts pats outs ps0 evs res
   | CSeqH ts pats hs ps0 evs res =>
       check_seq ts pats (map (fun x => http_outcome (fst x) (snd x)) hs) ps0 evs res
